@@ -169,8 +169,13 @@ def direct_oracle(inp, obs):
     return None
 
 
-def gen_table(rnd, alpha, maxrows=5):
-    return [["".join(rnd.choice(alpha) for _ in range(rnd.choice([0, 0, 1, 1, 2, 3]))) for _ in range(rnd.randint(1, 4))] for _ in range(rnd.randint(0, maxrows))]
+def gen_table(rnd, alpha, maxrows=5, empty_rows=False):
+    t = [["".join(rnd.choice(alpha) for _ in range(rnd.choice([0, 0, 1, 1, 2, 3]))) for _ in range(rnd.randint(1, 4))] for _ in range(rnd.randint(0, maxrows))]
+    if empty_rows and rnd.random() < 0.3:
+        # rows without any cell are written as blank lines and read back as rows without any cell - anywhere in the table
+        for _ in range(rnd.randint(1, 2)):
+            t.insert(rnd.choice([len(t), len(t), rnd.randint(0, len(t))]), [])
+    return t
 
 
 def gen_inputs(tier, rnd):
@@ -221,4 +226,4 @@ def gen_inputs(tier, rnd):
                     table[0][0] = "\ufeff" + table[0][0]
                 yield {"kind": "rt", "delim_spelling": dsp, "quote": q, "escape": e, "quoting": quoting, "line_delimiter": ld, "table": table, "file": True}
             else:
-                yield {"kind": "rt", "delim_spelling": dsp, "quote": q, "escape": e, "quoting": quoting, "line_delimiter": ld, "table": gen_table(rnd, alpha)}
+                yield {"kind": "rt", "delim_spelling": dsp, "quote": q, "escape": e, "quoting": quoting, "line_delimiter": ld, "table": gen_table(rnd, alpha, empty_rows=True)}
